@@ -65,6 +65,13 @@ Fixpoint strict_prefix (a b : aid) : bool :=
   | _, _ => false
   end.
 
+Fixpoint prefix_of_aid (a b : aid) : bool :=
+  match a, b with
+  | [], _ => true
+  | x :: a', y :: b' => Nat.eqb x y && prefix_of_aid a' b'
+  | _, _ => false
+  end.
+
 Definition mem_aid (a : aid) (l : list aid) : bool := existsb (aid_eqb a) l.
 Definition mem_key (k : key) (l : list key) : bool := existsb (key_eqb k) l.
 
@@ -172,8 +179,6 @@ Inductive phase :=
 | PhDefer (stage : nat) (i : nat)  (* deferred entry i: 0 announced, 1 running, 2 ended *)
 | PhClosed.                 (* up to date / platform skip *)
 
-Record st02 := { phases : list (aid * phase); sealed : list aid }.
-
 Fixpoint get_phase (l : list (aid * phase)) (a : aid) : phase :=
   match l with
   | [] => PhNew
@@ -223,33 +228,45 @@ Definition phase_step (p : prog) (t v : nat) (ph : phase) (e : event) : option p
   | _, _ => None
   end.
 
-(* when a moves on, every strict descendant seen so far must stay quiet from now on *)
-Definition seal_descendants (st : st02) (a : aid) : list aid :=
-  map fst (filter (fun '(b, _) => strict_prefix a b) (phases st)) ++ sealed st.
+(* (1) per activation: the legal sequence of its own events *)
+Definition step02seq (p : prog) (c : cfg) (ph : list (aid * phase)) (e : event) : option (list (aid * phase)) :=
+  match ev_act e with
+  | None => Some ph
+  | Some a =>
+      match resolve p c a with
+      | None => None
+      | Some (t, v, _) =>
+          match phase_step p t v (get_phase ph a) e with
+          | None => None
+          | Some q => Some (set_phase ph a q)
+          end
+      end
+  end.
 
-Definition step02 (p : prog) (c : cfg) (st : st02) (e : event) : option st02 :=
+Definition mon_C02seq (p : prog) (c : cfg) (tr : list event) : bool := accepts (step02seq p c) [] tr.
+
+(* (2) brackets: when a moves on, every strict descendant seen so far must stay quiet from now on *)
+Record st02 := { seen : list aid; sealed : list aid }.
+
+Definition seal_descendants (st : st02) (a : aid) : list aid :=
+  filter (strict_prefix a) (seen st) ++ sealed st.
+
+Definition step02seal (st : st02) (e : event) : option st02 :=
   match ev_act e with
   | None => Some st
   | Some a =>
       if mem_aid a (sealed st) then None
       else
-        match resolve p c a with
-        | None => None
-        | Some (t, v, _) =>
-            match phase_step p t v (get_phase (phases st) a) e with
-            | None => None
-            | Some ph =>
-                let sl := match e with
-                          | EvStarted _ _ | EvProbeBegin _ _ _ | EvDProbeBegin _ _ _ => sealed st
-                          | _ => seal_descendants st a
-                          end in
-                Some {| phases := set_phase (phases st) a ph; sealed := sl |}
-            end
-        end
+        let sl := match e with
+                  | EvStarted _ _ | EvProbeBegin _ _ _ | EvDProbeBegin _ _ _ => sealed st
+                  | _ => seal_descendants st a
+                  end in
+        Some {| seen := if mem_aid a (seen st) then seen st else a :: seen st; sealed := sl |}
   end.
 
-Definition mon_C02 (p : prog) (c : cfg) (tr : list event) : bool :=
-  accepts (step02 p c) {| phases := []; sealed := [] |} tr.
+Definition mon_C02seal (tr : list event) : bool := accepts step02seal {| seen := []; sealed := [] |} tr.
+
+Definition mon_C02 (p : prog) (c : cfg) (tr : list event) : bool := mon_C02seq p c tr && mon_C02seal tr.
 
 (* ------------------------------------------------------------------ *)
 (* C03: fail-stop                                                      *)
@@ -292,14 +309,40 @@ Definition reaches_root (p : prog) (c : cfg) (a : aid) : bool :=
   let up := a :: climb (length a) p c a in
   existsb (fun b => match link_of p c b with LRoot => true | _ => false end) up.
 
+Definition failing_ends (p : prog) (c : cfg) (tr : list event) : list (aid * nat) :=
+  flat_map (fun e => match e with
+                     | EvProbeEnd a i => if failing_cmd p c a i then [(a, i)] else []
+                     | _ => [] end) tr.
+
+Definition exit_of (p : prog) (c : cfg) (a : aid) (i : nat) : nat :=
+  match nth_error (t_cmds (get_task p (task_of p c a))) i with Some (Shell ex _) => ex | _ => 0 end.
+
+(* no task of the program can fail through a guard (then the only source of errors are commands) *)
+Definition no_guard_errors (p : prog) (c : cfg) : bool :=
+  forallb (fun tk => let g := t_g tk in
+                     g_required g && g_enum g && negb (g_prompt g && negb (cf_yes c)) &&
+                     match g_precond g with Some false => false | _ => true end && negb (t_internal tk)) p.
+
 Definition mon_C03_status (p : prog) (c : cfg) (tr : list event) (r : res) : bool :=
-  forallb (fun e => match e with
-                    | EvProbeEnd a i =>
-                        if failing_cmd p c a i && reaches_root p c a then
-                          match r with RErr _ => true | ROk => false end
-                        else true
-                    | _ => true
-                    end) tr.
+  (* a failure that reaches the top makes Run fail *)
+  forallb (fun '(a, i) => if reaches_root p c a then match r with RErr _ => true | ROk => false end else true)
+          (failing_ends p c tr) &&
+  (* with exactly one failing command in the whole run there is no race about which error wins:
+     reaching the top it is reported as a task-run error carrying exactly its exit status;
+     suppressed by an ignore_error on the way it leaves the invocation successful *)
+  match failing_ends p c tr with
+  | [(a, i)] =>
+      if reaches_root p c a then
+        match r with RErr (ETaskRun (Some n)) => Nat.eqb n (exit_of p c a i) | _ => false end
+      else if no_guard_errors p c && negb (existsb (fun e => match e with EvSkipping _ _ => true | _ => false end) tr)
+           (* (a caller of a shared task whose one execution was cancelled under somebody else's
+              context legitimately fails, so runs with skipped callers are not judged here) *)
+      then match r with ROk => true | _ => false end else true
+  | [] =>
+      (* nothing failed (or every failure was ignored on the spot): no exit-status error *)
+      match r with RErr (ETaskRun (Some _)) | RErr (EExit _) => false | _ => true end
+  | _ => true
+  end.
 
 (* ------------------------------------------------------------------ *)
 (* C06: run once / when_changed execute at most once per key; a skip    *)
@@ -329,6 +372,45 @@ Definition started_keys (p : prog) (c : cfg) (tr : list event) : list key :=
 Definition mon_C06 (p : prog) (c : cfg) (tr : list event) : bool :=
   accepts (step06 p c) [] tr &&
   forallb (fun k => mem_key k (started_keys p c tr)) (skipped_keys tr).
+
+(* ------------------------------------------------------------------ *)
+(* Waiting for a shared execution: after "skipping execution of task K" printed on behalf of a
+   caller below activation h (h = the skipped activation itself in the model's trace; the
+   activation that last printed on the same or the creating goroutine in an observed trace),
+   no activation at or above h moves on before the one real execution of K went quiet for good. *)
+
+Record stW := { w_owner : list (key * aid); w_pending : list (key * aid); w_sealed : list aid; w_seen : list aid }.
+
+Fixpoint owner_of (l : list (key * aid)) (k : key) : option aid :=
+  match l with [] => None | (k', o) :: r => if key_eqb k k' then Some o else owner_of r k end.
+
+Definition stepW (p : prog) (c : cfg) (st : stW) (e : event) : option stW :=
+  match e with
+  | EvSkipping k h =>
+      Some {| w_owner := w_owner st; w_pending := (k, h) :: w_pending st; w_sealed := w_sealed st; w_seen := w_seen st |}
+  | _ =>
+      match ev_act e with
+      | None => Some st
+      | Some x =>
+          if existsb (fun o => prefix_of_aid o x) (w_sealed st) then None
+          else
+            let owners := match e with
+                          | EvStarted a _ => match key_of_act p c a with Some k => (k, a) :: w_owner st | None => w_owner st end
+                          | _ => w_owner st
+                          end in
+            (* x moves: every pending wait registered at or below x is over *)
+            let due := filter (fun '(k, h) => prefix_of_aid x h) (w_pending st) in
+            let rest := filter (fun '(k, h) => negb (prefix_of_aid x h)) (w_pending st) in
+            let newly := flat_map (fun '(k, _) => match owner_of owners k with
+                                                   | Some o => if prefix_of_aid o x then [] else [o]
+                                                   | None => [] end) due in
+            Some {| w_owner := owners; w_pending := rest; w_sealed := newly ++ w_sealed st;
+                    w_seen := x :: w_seen st |}
+      end
+  end.
+
+Definition mon_waits (p : prog) (c : cfg) (tr : list event) : bool :=
+  accepts (stepW p c) {| w_owner := []; w_pending := []; w_sealed := []; w_seen := [] |} tr.
 
 (* ------------------------------------------------------------------ *)
 (* C07: at most N commands execute at any instant                       *)
@@ -403,6 +485,40 @@ Definition last_announced (a : aid) (tr : list event) : option nat :=
 Definition started_acts (tr : list event) : list aid :=
   flat_map (fun e => match e with EvStarted a _ => [a] | _ => [] end) tr.
 
+Definition dprobes_of (a : aid) (tr : list event) : list nat :=
+  flat_map (fun e => match e with EvDProbeBegin b i _ => if aid_eqb a b then [i] else [] | _ => [] end) tr.
+
+(* exit status with which a's own command loop stopped, as far as the trace shows it:
+   the first non-ignored failing shell command of a that ran to its end *)
+Definition own_failure (p : prog) (c : cfg) (a : aid) (tr : list event) : option nat :=
+  match find (fun e => match e with EvProbeEnd b i => aid_eqb a b && failing_cmd p c a i | _ => false end) tr with
+  | Some (EvProbeEnd _ i) =>
+      match nth_error (t_cmds (get_task p (task_of p c a))) i with
+      | Some (Shell ex _) => Some ex
+      | _ => None
+      end
+  | _ => None
+  end.
+
+(* does any command outside a's subtree fail (then a's context may have been cancelled
+   while its failing command was winding up, and EXIT_CODE may legitimately be unset) *)
+Definition foreign_failure (p : prog) (c : cfg) (a : aid) (tr : list event) : bool :=
+  existsb (fun e => match e with
+                    | EvProbeEnd b i => failing_cmd p c b i && negb (prefix_of_aid a b)
+                    | _ => false end) tr.
+
+(* EXIT_CODE seen by a's deferred commands *)
+Definition exit_codes_ok (p : prog) (c : cfg) (a : aid) (tr : list event) : bool :=
+  forallb (fun e => match e with
+                    | EvDProbeBegin b _ code =>
+                        if aid_eqb a b then
+                          match own_failure p c a tr with
+                          | Some ex => Nat.eqb code ex || (Nat.eqb code 0 && foreign_failure p c a tr)
+                          | None => true
+                          end
+                        else true
+                    | _ => true end) tr.
+
 (* complete = the run is over (every deferred entry had its chance) *)
 Definition mon_C14 (p : prog) (c : cfg) (complete : bool) (tr : list event) : bool :=
   forallb (fun a =>
@@ -410,7 +526,10 @@ Definition mon_C14 (p : prog) (c : cfg) (complete : bool) (tr : list event) : bo
              let ds := dann_of a tr in
              strictly_decreasing ds &&
              forallb (fun i => is_defer_shell p t i) ds &&
+             exit_codes_ok p c a tr &&
              (if complete then
+                (* every announced deferred command really executed *)
+                nat_list_eqb ds (dprobes_of a tr) &&
                 if mem_aid a (finished_acts tr) then nat_list_eqb ds (rev (defer_indices p t))
                 else
                   match last_announced a tr with
@@ -422,4 +541,4 @@ Definition mon_C14 (p : prog) (c : cfg) (complete : bool) (tr : list event) : bo
 
 (* everything the executor monitors demand of one observed run *)
 Definition mon_all (p : prog) (c : cfg) (complete : bool) (tr : list event) : list bool :=
-  [ mon_C01 p c tr; mon_calls p c tr; mon_C02 p c tr; mon_C03 p c tr; mon_C06 p c tr; mon_C07 c tr; mon_C13 p c tr; mon_C14 p c complete tr ].
+  [ mon_C01 p c tr; mon_calls p c tr; mon_waits p c tr; mon_C02 p c tr; mon_C03 p c tr; mon_C06 p c tr; mon_C07 c tr; mon_C13 p c tr; mon_C14 p c complete tr ].
